@@ -1,59 +1,5 @@
-(* GENERATED by harness/py2coq.py from afkak/partitioner.py pure_murmur2 - do not edit. *)
+(* GENERATED: translation FAILED: assignment form *)
 From Coq Require Import ZArith List.
-Import ListNotations.
 Open Scope Z_scope.
-
-Definition gen_pure_murmur2 (a_byte_array : list Z) (v_seed : Z) : Z :=
-  let v_length := (Z.of_nat (length a_byte_array)) in
-  let v_m := (1540483477) in
-  let v_r := (24) in
-  let v_mod32bits := (4294967295) in
-  let v_h := (Z.lxor v_seed v_length) in
-  let v_length4 := (Z.div v_length (4)) in
-  let v_h :=
-    fold_left (fun acc v_i => let v_h := acc in
-      let v_i4 := (Z.mul v_i (4)) in
-      let v_k := (Z.add (Z.add (Z.add (Z.land (nth (Z.to_nat (Z.add v_i4 (0))) a_byte_array 0) (255)) (Z.shiftl (Z.land (nth (Z.to_nat (Z.add v_i4 (1))) a_byte_array 0) (255)) (8))) (Z.shiftl (Z.land (nth (Z.to_nat (Z.add v_i4 (2))) a_byte_array 0) (255)) (16))) (Z.shiftl (Z.land (nth (Z.to_nat (Z.add v_i4 (3))) a_byte_array 0) (255)) (24))) in
-      let v_k := (Z.land v_k v_mod32bits) in
-      let v_k := (Z.mul v_k v_m) in
-      let v_k := (Z.land v_k v_mod32bits) in
-      let v_k := (Z.lxor v_k (Z.shiftr (Z.modulo v_k (4294967296)) v_r)) in
-      let v_k := (Z.land v_k v_mod32bits) in
-      let v_k := (Z.mul v_k v_m) in
-      let v_k := (Z.land v_k v_mod32bits) in
-      let v_h := (Z.mul v_h v_m) in
-      let v_h := (Z.land v_h v_mod32bits) in
-      let v_h := (Z.lxor v_h v_k) in
-      let v_h := (Z.land v_h v_mod32bits) in
-      v_h)
-      (map Z.of_nat (seq 0 (Z.to_nat v_length4))) v_h in
-  let v_extra_bytes := (Z.modulo v_length (4)) in
-  let v_h :=
-    if (Z.eqb v_extra_bytes (3)) then
-      let v_h := (Z.lxor v_h (Z.shiftl (Z.land (nth (Z.to_nat (Z.add (Z.land v_length (Z.lnot (3))) (2))) a_byte_array 0) (255)) (16))) in
-      let v_h := (Z.land v_h v_mod32bits) in
-      v_h
-    else v_h in
-  let v_h :=
-    if (Z.geb v_extra_bytes (2)) then
-      let v_h := (Z.lxor v_h (Z.shiftl (Z.land (nth (Z.to_nat (Z.add (Z.land v_length (Z.lnot (3))) (1))) a_byte_array 0) (255)) (8))) in
-      let v_h := (Z.land v_h v_mod32bits) in
-      v_h
-    else v_h in
-  let v_h :=
-    if (Z.geb v_extra_bytes (1)) then
-      let v_h := (Z.lxor v_h (Z.land (nth (Z.to_nat (Z.land v_length (Z.lnot (3)))) a_byte_array 0) (255))) in
-      let v_h := (Z.land v_h v_mod32bits) in
-      let v_h := (Z.mul v_h v_m) in
-      let v_h := (Z.land v_h v_mod32bits) in
-      v_h
-    else v_h in
-  let v_h := (Z.lxor v_h (Z.shiftr (Z.modulo v_h (4294967296)) (13))) in
-  let v_h := (Z.land v_h v_mod32bits) in
-  let v_h := (Z.mul v_h v_m) in
-  let v_h := (Z.land v_h v_mod32bits) in
-  let v_h := (Z.lxor v_h (Z.shiftr (Z.modulo v_h (4294967296)) (15))) in
-  let v_h := (Z.land v_h v_mod32bits) in
-  v_h.
-
-Definition gen_seed : Z := (2538058380).
+Definition gen_pure_murmur2 (a : list Z) (s : Z) : Z := -1.
+Definition gen_seed : Z := -1.
